@@ -10,11 +10,6 @@ HERE = os.path.dirname(os.path.dirname(os.path.abspath(__file__)))
 CLAIMED = {}
 
 NOT_APPLICABLE = {
-    "C01": "Static analysis cannot decide it: the property is round-trip equality of run-time strings "
-    "produced by index arithmetic over the input text, over an infinite input domain. The three "
-    "structural clauses that exist (token tables, style-detection precedence, 'Defaults to' announce) "
-    "are already pinned by the existing suite, so a static rule would settle nothing new "
-    "(DESIGN.md §2 C01).",
     "C04": "Needs CPython executing the *emitted* program as oracle (inspect.signature, ArgumentParser); "
     "a static analysis of the emitter sees AST constructor calls, not the program they denote for a "
     "given input. No structural clause is a meaningful necessary condition beyond what the "
@@ -316,6 +311,23 @@ claim(
     "quoting of arbitrary defaults) — the equality of round n and n+1 itself. Emission templates and values "
     "freshly derived from source syntax are not growth sites.",
     "DESIGN.md §2 C08",
+)
+
+claim(
+    "C01",
+    "constant folding of the token / announce tables and comparison with what the emitters write; substring "
+    "check across the style-detection order; shape of the if-chain classifying an untyped default",
+    "Decides four NECESSARY clauses only: every field/section token the emitter writes for a style is in the "
+    "table the scanner of that style keys on; no token of a style contains a token of a style that "
+    "derive_docstring_format tests earlier; the ' Defaults to ' announce is one of DEFAULTS_TO_VARIANTS; an "
+    "untyped default text is classified int before float with a sign-aware integer test (an int stays an int, "
+    "a negative number stays negative). The first three are also exercised by the suite's mock comparisons; "
+    "the fourth is not (a genuine defect there was repaired).",
+    "NOT decided — and this is most of the property: the round-trip equality itself (names, order, type "
+    "strings, default values and their Python types, descriptions, return entry) over all interfaces x 3 styles "
+    "x 8 flag combinations; these are run-time strings produced by index arithmetic over the input text and no "
+    "structural argument in reach bounds them. The claim must not be read as covering the behaviour.",
+    "DESIGN.md §2 C01 and §7.7",
 )
 
 
